@@ -32,6 +32,14 @@ func Here(site int) {
 		h(site)
 	}
 }
+
+// Release marks a site right after something was handed back (Close, Put,
+// Flush ...) or between deferred calls; sites are reported negated.
+func Release(site int) {
+	if h := Hook; h != nil {
+		h(-site)
+	}
+}
 `
 
 var dirs = []string{".", "files", "deb", "rpm", "apk", "arch", "ipk", "internal/glob", "internal/modtime", "internal/maps", "internal/sign", "deprecation"}
@@ -54,6 +62,10 @@ func takesLock(fn *ast.FuncDecl) bool {
 // right after the deferred call that follows it in the source - a yield point
 // between any two deferred calls and after the last one (clean-up order:
 // Put before Close, Close before Unlock, ...).
+//
+// It also puts a yield right after every statement that releases something
+// (a call of Close, Put, Flush, Release or Reset, also as "if err := x.Close();
+// ..."): the window between handing a resource back and the last use of it.
 func deferYields(list []ast.Stmt, mk func(pos token.Pos) ast.Stmt) []ast.Stmt {
 	var out []ast.Stmt
 	for _, st := range list {
@@ -62,8 +74,39 @@ func deferYields(list []ast.Stmt, mk func(pos token.Pos) ast.Stmt) []ast.Stmt {
 			out = append(out, &ast.DeferStmt{Call: y.X.(*ast.CallExpr)})
 		}
 		out = append(out, st)
+		if releases(st) {
+			out = append(out, mk(st.End()))
+		}
 	}
 	return out
+}
+
+func isReleaseCall(e ast.Expr) bool {
+	c, ok := e.(*ast.CallExpr)
+	if !ok {
+		return false
+	}
+	sel, ok := c.Fun.(*ast.SelectorExpr)
+	if !ok {
+		return false
+	}
+	switch sel.Sel.Name {
+	case "Close", "Put", "Flush", "Release", "Reset":
+		return true
+	}
+	return false
+}
+
+func releases(st ast.Stmt) bool {
+	switch s := st.(type) {
+	case *ast.ExprStmt:
+		return isReleaseCall(s.X)
+	case *ast.AssignStmt:
+		return len(s.Rhs) == 1 && isReleaseCall(s.Rhs[0])
+	case *ast.IfStmt:
+		return s.Init != nil && releases(s.Init)
+	}
+	return false
 }
 
 func main() {
@@ -98,6 +141,11 @@ func main() {
 					Args: []ast.Expr{&ast.BasicLit{Kind: token.INT, Value: strconv.Itoa(site)}},
 				}}
 			}
+			mkRel := func(pos token.Pos, what string) ast.Stmt {
+				st := mk(pos, what).(*ast.ExprStmt)
+				st.X.(*ast.CallExpr).Fun.(*ast.SelectorExpr).Sel = ast.NewIdent("Release")
+				return st
+			}
 			for _, decl := range f.Decls {
 				fn, ok := decl.(*ast.FuncDecl)
 				if !ok || fn.Body == nil || fn.Name.Name == "init" || takesLock(fn) {
@@ -110,11 +158,11 @@ func main() {
 					case *ast.RangeStmt:
 						s.Body.List = append([]ast.Stmt{mk(s.Pos(), "loop in "+fn.Name.Name)}, s.Body.List...)
 					case *ast.BlockStmt:
-						s.List = deferYields(s.List, func(pos token.Pos) ast.Stmt { return mk(pos, "between deferred calls of "+fn.Name.Name) })
+						s.List = deferYields(s.List, func(pos token.Pos) ast.Stmt { return mkRel(pos, "deferred call or release in "+fn.Name.Name) })
 					case *ast.CaseClause:
-						s.Body = deferYields(s.Body, func(pos token.Pos) ast.Stmt { return mk(pos, "between deferred calls of "+fn.Name.Name) })
+						s.Body = deferYields(s.Body, func(pos token.Pos) ast.Stmt { return mkRel(pos, "deferred call or release in "+fn.Name.Name) })
 					case *ast.CommClause:
-						s.Body = deferYields(s.Body, func(pos token.Pos) ast.Stmt { return mk(pos, "between deferred calls of "+fn.Name.Name) })
+						s.Body = deferYields(s.Body, func(pos token.Pos) ast.Stmt { return mkRel(pos, "deferred call or release in "+fn.Name.Name) })
 					}
 					return true
 				})
